@@ -12,6 +12,7 @@
 (***************************************************************************)
 EXTENDS Interp, Json, IOUtils, TLCExt
 
+MCNext == Next /\ l' = l
 Expected == Inst.expected
 RowsPrefix == Len(rows) <= Len(Expected) /\ \A j \in 1..Len(rows) : RowEq(rows[j], Expected[j])
 RowsFinal == phase = "Done" => Len(rows) = Len(Expected)
